@@ -240,6 +240,12 @@ def run(tier):
         "expirations are absent or one hour away (expiry is C06); value nil == empty",
         "Redis = in-process miniredis; RedisImpl.tla assumes ULIDs of different clients never collide",
     ]
+    # many concurrent readers on records that expire under their hands (own process: the failure mode is a Go runtime
+    # fatal error - a map written under a read lock -, which nothing can recover)
+    rt = c.path("trace", "kvreaders.ndjson")
+    if c.run_vh_crashcheck(["drive", "kvreaders", "-seed", c.seed, "-out", rt],
+                           "kvlin inmem: concurrent readers on expiring records took the process down", timeout=120) is not None:
+        c.traces_validated += 1
     return c.finish(rule="every recorded concurrent history (%d in-memory, %d Redis: 2-4 goroutines x 3-6 calls (read-CAS chains: "
                          "up to 6 rounds) over 2 keys, random mixes of Create/Get/Put/CasByVersion/Delete/GetMany/PutMany, unsynchronised "
                          "read-CAS / Put / Delete-Create chains and all-fire-at-once Create/Create, CAS/CAS, Delete/CAS, Put/CAS races "
